@@ -473,14 +473,14 @@ Proof.
   fold (split_pairs idx nodes) in Hm.
   set (pairs := split_pairs idx nodes) in *.
   assert (Hs : Sorted.StronglySorted (fun x y => pair_le x y = true) pairs).
-  { apply filter_SS. apply sort_by_SS; [apply pair_le_total|apply pair_le_trans]. }
+  { apply split_pairs_SS. }
   assert (Hin : forall iu, In iu pairs -> (0 < snd iu /\ snd iu < 1)%Q).
-  { intros [i u] Hiu. unfold pairs, split_pairs in Hiu.
-    apply filter_In in Hiu. destruct Hiu as [Hiu Hn].
-    apply sort_by_In in Hiu. apply in_combine_r in Hiu. cbn [snd] in *.
+  { intros [i u] Hiu. unfold pairs in Hiu.
+    apply split_pairs_In in Hiu. destruct Hiu as [Hiu Hn].
+    apply in_combine_r in Hiu. cbn [snd] in *.
     rewrite forallb_forall in Hout. specialize (Hout u Hiu).
     apply negb_true_iff in Hout. apply out01_false in Hout.
-    apply negb_true_iff in Hn. apply near01_false; tauto. }
+    apply near01_false; tauto. }
   apply mapM_Ok_Forall2 in Hm. clear Hout. revert Hl Hm. generalize 0%nat. revert gs.
   induction j as [|s j IH]; intros gs k Hl Hm; cbn [length seq combine] in Hm.
   - inversion Hm. constructor.
